@@ -602,6 +602,32 @@ class ExtMixin:
                 cell.opaque = True
                 self.event(st, fr, "mayraise", node, ("pop", base))
                 return R(self.sym_item(base, st, fr, node, 0))
+            if attr == "update" and base.kind == "dict" and (kw or a):
+                # d.update({k: v}) / d.update(k=v) with known pairs is a series of item stores
+                pairs = None
+                if len(a) == 1 and not kw and isinstance(a[0], Ref) and a[0].kind == "dict" and (st.heap[a[0].ident].fields or {}).get("__literal__") is not None:
+                    pairs = st.heap[a[0].ident].fields["__literal__"]
+                elif len(a) == 1 and not kw and isinstance(a[0], Const) and isinstance(a[0].v, dict):
+                    pairs = [(Const(k_), self.lift(v_, st)) for k_, v_ in a[0].v.items()]
+                if pairs is not None:
+                    for k_, v_ in pairs:
+                        self.event(st, fr, "dictstore", node, (base, norm(k_), v_, path_text(node.func.value)))
+                    self.note_mutation(st, fr, node, base)
+                    cell.opaque = True
+                    return R(Const(None))
+            if attr == "setdefault" and base.kind == "dict" and a and cell.opaque and (cell.fields or {}).get("__table__") is None:
+                # the key is present (nothing is stored, the entry's value comes back) or absent (the default is stored and returned)
+                dflt = args[1] if len(args) > 1 else Const(None)
+                label = base.label or path_text(node.func.value) or "dict"
+                s2 = st.fork()
+                self.budget()
+                hit = Sym(st.fresh_name(label + ".val"), "int", role=("dict-val", label, "get"), key=a[0])
+                ksym = Sym(("keyof", label), "int", role=("dict-key", label, "get"))
+                self.event(st, fr, "cond", node, (True, (a[0], ksym)))
+                self.event(s2, fr, "cond", node, (False, (a[0], ksym)))
+                self.event(s2, fr, "dictstore", node, (base, a[0], dflt, path_text(node.func.value)))
+                self.note_mutation(s2, fr, node, base)
+                return [(st, hit), (s2, dflt)]
             if attr in ("clear", "extend", "insert", "remove", "reverse", "sort", "update"):
                 self.event(st, fr, attr, node, (base, a, path_text(node.func.value)))
                 self.note_mutation(st, fr, node, base)
